@@ -8,12 +8,11 @@
   FULL STATEMENT: in every reachable state (1) every address has at most one owner record in memory and in the
   store, allocated and unallocated addresses are disjoint, store and memory agree; (2) two distinct pods that are alive
   never have a common address in their binding annotations - "with any single API call failing".
-  Proved within `allAssumed`: non-empty names, bind requests carry the pod UID, reloads keep live pods' addresses
-  configured (operator error otherwise: the address is handed out again after being re-added) - and the injected fault
-  of a reload is not one of ConfigurePool's store deletes.  The last restriction IS inside C01's quantifier, hence
-  `_partial`: ConfigurePool ignores a failed delete, the stale object is resurrected by a later reload that re-adds
-  the address, resync then releases the whole key incl. the live pod's address, which the next pod is handed
-  (corpus/C01/reload-delete-fault-shared-ip.ops reproduces it on the real code; known finding).
+  Proved at full strength within the property's scope `allAssumed`: non-empty names, bind requests carry the pod UID,
+  reloads keep live pods' addresses configured (otherwise operator error: an address removed while in use and added
+  again is handed out again) - for every fault position of every move ("with any single API call failing").
+  `State.store` holds the FloatingIP objects of configured addresses; objects whose delete failed during a reload are
+  `State.orphans` (not configured, never allocatable, resurrected or deleted by the next reload).
 -/
 import Galaxy.Lemmas.PluginMain
 
@@ -38,7 +37,7 @@ theorem key_injective_on_pod_identity (q1 q2 : Pod) (h1 : WFNames q1) (h2 : WFNa
 /-- "At every moment each floating IP has at most one owner": in every reachable state the allocated table and the
     store have one record per address, an unallocated address has no record, and store and memory hold the same
     record for every address (so the owner is the same in both). -/
-theorem unique_owner_partial (c : Conf) (ms : List Move) (hok : allAssumed facts (init c) ms = true) :
+theorem unique_owner (c : Conf) (ms : List Move) (hok : allAssumed facts (init c) ms = true) :
     (Tbl.keys (run facts (init c) ms).alloc).Nodup ∧ (Tbl.keys (run facts (init c) ms).store).Nodup ∧
     (∀ ip, ip ∈ (run facts (init c) ms).free → Tbl.get (run facts (init c) ms).alloc ip = none) ∧
     (∀ ip, Tbl.get (run facts (init c) ms).store ip = Tbl.get (run facts (init c) ms).alloc ip) := by
@@ -48,7 +47,7 @@ theorem unique_owner_partial (c : Conf) (ms : List Move) (hok : allAssumed facts
 
 /-- "no two pods that are alive at the same time have been handed the same IP in their binding annotation": in every
     reachable state two live bound pods with a common address are the same pod. -/
-theorem no_shared_ip_between_live_pods_partial (c : Conf) (ms : List Move) (hok : allAssumed facts (init c) ms = true)
+theorem no_shared_ip_between_live_pods (c : Conf) (ms : List Move) (hok : allAssumed facts (init c) ms = true)
     (q1 q2 : Pod) (h1 : LiveBound (run facts (init c) ms).pods q1) (h2 : LiveBound (run facts (init c) ms).pods q2)
     (ip : IP) (m1 : ip ∈ q1.ips) (m2 : ip ∈ q2.ips) : q1 = q2 := by
   rw [fact_plugin_shape] at hok h1 h2
@@ -56,7 +55,7 @@ theorem no_shared_ip_between_live_pods_partial (c : Conf) (ms : List Move) (hok 
 
 /-- An address handed to a live bound pod is not unallocated, so no later Filter / Bind can hand it to another pod
     (every allocation takes an unallocated address or re-keys a prefix-keyed record). -/
-theorem handed_ip_is_not_free_partial (c : Conf) (ms : List Move) (hok : allAssumed facts (init c) ms = true)
+theorem handed_ip_is_not_free (c : Conf) (ms : List Move) (hok : allAssumed facts (init c) ms = true)
     (q : Pod) (hq : LiveBound (run facts (init c) ms).pods q) (ip : IP) (hm : ip ∈ q.ips) :
     ip ∉ (run facts (init c) ms).free := by
   rw [fact_plugin_shape] at hok hq ⊢
